@@ -187,10 +187,11 @@ fn main() {
     };
     let mut distinct: HashSet<String> = HashSet::new();
     let (mut ok_trees, mut err_trees, mut evals) = (0u64, 0u64, 0u64);
+    let mut siblings = 0u64;
     let mut samples: Vec<String> = Vec::new();
 
     // ---- A. deserialize(serialize_as_string(s)) == build_operator_tree(s)
-    let fixed = ["3", "4+4", "21^(2*2)--3>5||!true", "&", "\"", "(", "a = 1; a", "1,2;3", "/* c */ 1", "\"a\\\"b\"", "\u{feff}1", "\u{feff}", " 7", "7 ", "\n7", "\t+5", "-5", "+5", "\u{feff}a + 1", "\u{200b}2"];
+    let fixed = ["3", "4+4", "21^(2*2)--3>5||!true", "&", "\"", "(", "a = 1; a", "1,2;3", "/* c */ 1", "\"a\\\"b\"", "\u{feff}1", "\u{feff}", " 7", "7 ", "\n7", "\t+5", "-5", "+5", "\u{feff}a + 1", "\u{200b}2", "\"John Doe\" + x", "1 // c\n+ 2", "name == \"a b\" && f(\"c d\", 1)", "/* a b */ \"x y\""];
     for i in 0..n_strings {
         let s = if (i as usize) < fixed.len() { fixed[i as usize].to_string() } else { random_source(&mut r) };
         distinct.insert(s.clone());
@@ -239,6 +240,23 @@ fn main() {
                 via_ron.as_ref().map(|_| "Ok").map_err(|e| e.to_string()),
                 via_str.as_ref().map(|_| "Ok").map_err(|e| e.to_string())
             )),
+        }
+        // a sibling that differs only in blanks (doubled everywhere — also inside text literals — and line breaks turned
+        // into spaces) is another expression: deserialized right after the first it yields its own tree, the one a thread
+        // without any history precompiles
+        let sib = s.replace(' ', "  ").replace('\n', " ");
+        if sib != s && i % 2 == 0 {
+            let sib2 = sib.clone();
+            let expected = std::thread::Builder::new().stack_size(64 << 20).spawn(move || build_operator_tree::<DefaultNumericTypes>(&sib2).map(|t| format!("{:?}", t)).map_err(|e| e.to_string())).expect("oracle thread").join();
+            let _ = Node::<DefaultNumericTypes>::deserialize(serde::de::value::StrDeserializer::<serde::de::value::Error>::new(&s));
+            let got = Node::<DefaultNumericTypes>::deserialize(serde::de::value::StrDeserializer::<serde::de::value::Error>::new(&sib)).map(|t| format!("{:?}", t)).map_err(|e| e.to_string());
+            evals += 3;
+            siblings += 1;
+            match expected {
+                Ok(exp) if exp == got => {},
+                Ok(exp) => report(format!("node/blank-variant-after-its-sibling: {:?} deserialized and right afterwards {:?}: the second gives {:?}, a thread without history precompiles it to {:?}", s, sib, got, exp)),
+                Err(_) => report(format!("harness: the oracle thread died on {:?}", sib)),
+            }
         }
     }
 
@@ -457,8 +475,8 @@ fn main() {
         }
     }
     println!(
-        "{{\"strings\": {}, \"trees_ok\": {}, \"trees_err\": {}, \"contexts\": {}, \"contexts_round_tripped\": {}, \"evaluations\": {}, \"distinct\": {}, \"mismatches\": {}, \"samples\": {:?}}}",
-        n_strings, ok_trees, err_trees, n_ctx, ctx_ok, evals, distinct.len(), mismatches, samples
+        "{{\"strings\": {}, \"trees_ok\": {}, \"trees_err\": {}, \"blank_variant_siblings\": {}, \"contexts\": {}, \"contexts_round_tripped\": {}, \"evaluations\": {}, \"distinct\": {}, \"mismatches\": {}, \"samples\": {:?}}}",
+        n_strings, ok_trees, err_trees, siblings, n_ctx, ctx_ok, evals, distinct.len(), mismatches, samples
     );
     std::process::exit(if mismatches == 0 { 0 } else { 1 });
 }
